@@ -34,8 +34,10 @@ for s in seeds:
     json.dump(meta, open(os.path.join(d, "meta.json"), "w"), indent=1)
     rows.append((s, meta["property"], props, caught))
     print(s, "own" if meta["property"] in caught else "NOT-OWN", caught, flush=True)
-if len(sys.argv) == 1:
-    with open(os.path.join(root, "MATRIX.md"), "w") as f:
-        f.write("| seed | property | quick checks run | reported VIOLATION |\n|---|---|---|---|\n")
-        for s, p, props, caught in rows:
-            f.write("| %s | %s | %s | %s |\n" % (s, p, " ".join(props), " ".join(caught) or "none"))
+# MATRIX.md is always rebuilt from every meta.json
+allseeds = sorted(d for d in os.listdir(root) if os.path.isdir(os.path.join(root, d)))
+with open(os.path.join(root, "MATRIX.md"), "w") as f:
+    f.write("| seed | property | quick checks run | reported VIOLATION |\n|---|---|---|---|\n")
+    for s in allseeds:
+        meta = json.load(open(os.path.join(root, s, "meta.json")))
+        f.write("| %s | %s | %s | %s |\n" % (s, meta["property"], " ".join(meta.get("checked_with", {})), " ".join(meta.get("caught_by") or []) or "none"))
